@@ -51,7 +51,7 @@ func NewPreprocReader(r io.Reader, c *Codec) *PreprocReader {
 
 // empty line or comment
 func isIgnored(line []byte) bool {
-	if len(line) < 1 || decodeRtype(line) == prefixComment {
+	if len(line) < 2 || decodeRtype(line) == prefixComment { // same rule as parse()
 		return true
 	}
 	return false
